@@ -298,6 +298,11 @@ pub fn hard_numbers(heavy: bool) -> Vec<String> {
 		let mid = plain(&midpoint_above(m, e));
 		let mid = if mid.contains('.') { mid } else { format!("{mid}.0") };
 		out.push(format!("{mid}{}1", "0".repeat(60usize.saturating_sub(mid.len()))));
+		// ... and above it by far less: the deciding digit comes after 800 / 1300 digits of the tie's own expansion and zeros
+		if m == 0x10_0000_0000_0000u64 {
+			out.push(format!("{mid}{}1", "0".repeat(800usize.saturating_sub(mid.len()))));
+			out.push(format!("-{mid}{}7", "0".repeat(1300usize.saturating_sub(mid.len()))));
+		}
 		out.push(format!("-{}4{}9", &mid[..mid.len() - 1], "9".repeat(60usize.saturating_sub(mid.len()))));
 	}
 	out.push(midpoint_above(0x1F_FFFF_FFFF_FFFE, 971));
